@@ -51,3 +51,147 @@ func withHelpers(p *core.Prog, f *ssa.Function, match func(g *ssa.Function, reso
 	})
 	return found
 }
+
+// helperCond is a branch condition that holds inside a validating helper on every path
+// to a return that can report success, together with the mapping of the helper's
+// parameters to the arguments of the call under consideration.
+type helperCond struct {
+	Cond    core.Cond
+	Helper  *ssa.Function
+	Resolve func(ssa.Value) ssa.Value
+}
+
+// condsAt returns the conditions known at block b: the branch conditions dominating b in
+// its own function plus, for every same-repository helper whose error result is known to
+// be nil at b (b lies on the err == nil side of a test of that result), the conditions
+// dominating every success-capable return of the helper ("validating helper" tolerance,
+// one level). For the function's own conditions Helper is nil and Resolve the identity.
+func condsAt(p *core.Prog, b *ssa.BasicBlock) []helperCond {
+	id := func(v ssa.Value) ssa.Value { return v }
+	var out []helperCond
+	pt := passThrough(p)
+	for _, cd := range core.Conditions(b) {
+		out = append(out, helperCond{Cond: cd, Resolve: id})
+		v, nonNil, ok := isErrNilTest(cd)
+		if !ok || nonNil {
+			continue
+		}
+		for _, call := range errOriginCalls(v, map[ssa.Value]bool{}) {
+			h := p.ByObj[core.CalleeObj(call)]
+			if h == nil || h.SSA == nil || h.SSA == b.Parent() || len(h.SSA.Blocks) == 0 {
+				continue
+			}
+			args := call.Call.Args
+			subst := map[ssa.Value]ssa.Value{}
+			for i, pa := range h.SSA.Params {
+				if i < len(args) {
+					subst[pa] = args[i]
+				}
+			}
+			resolve := func(v ssa.Value) ssa.Value {
+				if a, ok := subst[v]; ok {
+					return a
+				}
+				return v
+			}
+			// conditions common to all success-capable returns of the helper
+			var common []core.Cond
+			first := true
+			for _, ret := range core.Returns(h.SSA) {
+				if !core.SuccessCapable(ret, pt) {
+					continue
+				}
+				cs := core.Conditions(ret.Block())
+				if first {
+					common, first = cs, false
+					continue
+				}
+				var keep []core.Cond
+				for _, c := range common {
+					for _, d := range cs {
+						if c.If == d.If && c.Truth == d.Truth {
+							keep = append(keep, c)
+						}
+					}
+				}
+				common = keep
+			}
+			for _, c := range common {
+				out = append(out, helperCond{Cond: c, Helper: h.SSA, Resolve: resolve})
+			}
+		}
+	}
+	return out
+}
+
+// errOriginCalls: the calls whose error result v is (v itself, a tuple component, or every
+// edge of a phi — a phi with another origin yields nothing, the nil test then says nothing
+// about the helper).
+func errOriginCalls(v ssa.Value, seen map[ssa.Value]bool) []*ssa.Call {
+	if seen[v] {
+		return nil
+	}
+	seen[v] = true
+	switch x := v.(type) {
+	case *ssa.Call:
+		return []*ssa.Call{x}
+	case *ssa.Extract:
+		if c, ok := x.Tuple.(*ssa.Call); ok {
+			return []*ssa.Call{c}
+		}
+	}
+	return nil
+}
+
+// findEventsVia lists the instructions of f matching pred plus the calls in f of
+// same-package repository functions whose own body contains a match (the event then
+// happens at the call site, "extract method" tolerance, one level).
+func findEventsVia(p *core.Prog, f *ssa.Function, pred instrPred) []ssa.Instruction {
+	out := findInstrs(f, false, pred)
+	core.Instrs(f, func(in ssa.Instruction) {
+		c, ok := in.(ssa.CallInstruction)
+		if !ok || pred(in) {
+			return
+		}
+		if _, isGo := in.(*ssa.Go); isGo {
+			return
+		}
+		if _, isDefer := in.(*ssa.Defer); isDefer {
+			return
+		}
+		h := p.ByObj[core.CalleeObj(c)]
+		if h == nil || h.SSA == nil || h.SSA == f || f.Pkg == nil || h.Pkg.PkgPath != f.Pkg.Pkg.Path() {
+			return
+		}
+		if len(findInstrs(h.SSA, false, pred)) > 0 {
+			out = append(out, in)
+		}
+	})
+	return out
+}
+
+// viaHelpers lifts an instruction predicate to call sites: the result matches what pred
+// matches and, in addition, the (non-go, non-defer) calls in caller of same-package
+// repository functions whose own body contains a match.
+func viaHelpers(p *core.Prog, caller *ssa.Function, pred instrPred) instrPred {
+	memo := map[*ssa.Function]bool{}
+	return func(in ssa.Instruction) bool {
+		if pred(in) {
+			return true
+		}
+		c, ok := in.(*ssa.Call)
+		if !ok {
+			return false
+		}
+		h := p.ByObj[core.CalleeObj(c)]
+		if h == nil || h.SSA == nil || h.SSA == caller || caller.Pkg == nil || h.Pkg.PkgPath != caller.Pkg.Pkg.Path() {
+			return false
+		}
+		v, known := memo[h.SSA]
+		if !known {
+			v = len(findInstrs(h.SSA, false, pred)) > 0
+			memo[h.SSA] = v
+		}
+		return v
+	}
+}
